@@ -661,7 +661,15 @@ func Run(id string, start time.Time) int {
 			return
 		}
 		defer os.RemoveAll(proj)
-		res := h.CLI{Bin: bin, Dir: filepath.Join(proj, sc.cwd), Args: sc.args, Env: sc.env, Timeout: 120 * time.Second}.Run()
+		cli := h.CLI{Bin: bin, Dir: filepath.Join(proj, sc.cwd), Args: sc.args, Env: sc.env, Timeout: 120 * time.Second}
+		res := cli.Run()
+		for try := 0; try < 2 && !res.TimedOut && res.Exit == 0 && res.Stdout == "" && res.Stderr == ""; try++ {
+			// exit 0 without a single byte of output: seen only on an overloaded
+			// machine (the harness' pipe reader lost the race against its 2 s
+			// WaitDelay); the observation is void, not a verdict, so it is redone
+			part.Count("silent_runs_retried", 1)
+			res = cli.Run()
+		}
 		nontrivial := len(sc.Defs)+len(sc.Comp) >= 2 || (sc.Family == "env" && sc.Env.count() >= 2) || (sc.Family == "special" && len(sc.Defs) == 0)
 		part.Eval(sc.key(), nontrivial)
 		part.Count("cli_runs", 1)
